@@ -753,9 +753,12 @@ impl<'a, T: 'a + IO> Interpreter<'a, T> {
 
         let last_if_condition_index = self.previous_if_was_executed.len() - 1;
         if self.previous_if_was_executed[last_if_condition_index] {
+            // previous branch of this chain was executed so skipping this branch,
+            // skip_block_in_if pops the flag when chain ends here
             self.skip_block_in_if()?;
+        } else {
+            self.previous_if_was_executed.pop();
         }
-        self.previous_if_was_executed.pop();
 
         Ok(())
     }
